@@ -13,20 +13,20 @@ PCCLASS = {'alloc': 'acq_id', 'sendOpen': 'acq_t', 'sendWrte': 'acq_t', 'sendCls
 
 
 # ------------------------------------------------------------------ TLC side
-def host_cfg(prog, dev_k1, dev_f5, ridbase=10, invariants=(), view=True, emit=False, deadlock=True, properties=(), spec='Spec', constraints=()):
+def host_cfg(prog, dev_k1, dev_f5, ridbase=10, invariants=(), view=True, emit=False, deadlock=True, properties=(), spec='Spec', constraints=(), registry=False):
     threads = sorted(prog)
     return tlc.cfg_text(constants={'Threads': '{' + ','.join('"%s"' % t for t in threads) + '}', 'Prog': '<- MC_Prog', 'Replies': '<- MC_Replies',
-                                   'DEV_K1': 'TRUE' if dev_k1 else 'FALSE', 'DEV_F5': 'TRUE' if dev_f5 else 'FALSE', 'RidBase': str(ridbase)},
+                                   'DEV_K1': 'TRUE' if dev_k1 else 'FALSE', 'DEV_F5': 'TRUE' if dev_f5 else 'FALSE', 'REGISTRY': 'TRUE' if registry else 'FALSE', 'RidBase': str(ridbase)},
                         spec=spec, invariants=list(invariants), properties=list(properties), view='View' if view else None,
                         action_constraints=['EmitEdge'] if emit else [], deadlock=deadlock, constraints=list(constraints))
 
 
 def host_run(prog, replies, dev_k1, dev_f5, invariants=('MonitorOK', 'Complete', 'NoCrossTalk', 'NoStuck', 'LockDiscipline'), emit=False, workers=16,
-             ridbase=10, cached=False, properties=(), spec='Spec', timeout=1800, deadlock=True):
+             ridbase=10, cached=False, properties=(), spec='Spec', timeout=1800, deadlock=True, registry=False):
     """Model-check AdbHost for the given thread programs (prog/replies: dict thread -> list)."""
     import hashlib
     mod = tlc.mc_module('MCHost', 'AdbHost', dict(MC_Prog=prog, MC_Replies=replies))
-    cfg = host_cfg(prog, dev_k1, dev_f5, ridbase, invariants, emit=emit, properties=properties, spec=spec, deadlock=deadlock)
+    cfg = host_cfg(prog, dev_k1, dev_f5, ridbase, invariants, emit=emit, properties=properties, spec=spec, deadlock=deadlock, registry=registry)
     tag = hashlib.sha256((mod + cfg).encode()).hexdigest()[:12]
     d = os.path.join(tlc.WORK, 'mch-' + tag + ('-%d' % os.getpid()))
     os.makedirs(d, exist_ok=True)
@@ -51,7 +51,7 @@ def canon(o):
 
 def state_key(st):
     st = canon(st)
-    for k in ('store', 'dev'):
+    for k in ('store', 'dev', 'live'):
         if k in st:
             st[k] = sorted(st[k], key=json.dumps)
     return json.dumps(st, sort_keys=True)
@@ -173,8 +173,27 @@ class World(object):
         self.io = io
         self.lid0 = lid0
         self.io_yield = False
+        self.line_yield = False      # exploration only: preempt before every line of the packet store methods and of read()
         self.lids = {t: 0 for t in self.threads}
         self.results = {}
+
+    def line_tracer(self):
+        import os as _os
+        hh = _os.path.join('adb_shell', 'hidden_helpers.py')
+        dv = _os.path.join('adb_shell', 'adb_device.py')
+        store_methods = ('put', 'get', 'find', 'find_allow_zeros', 'clear', 'clear_all', 'mark_live', '__len__', '__contains__', '<genexpr>')
+        sch = self.sched
+
+        def tracer(frame, event, arg):
+            co = frame.f_code
+            if (co.co_filename.endswith(hh) and co.co_name in store_methods) or (co.co_filename.endswith(dv) and co.co_name == 'read'):
+                def local(fr, ev, a):
+                    if ev == 'line' and _holder['sched'] is sch:
+                        sch.boundary('line', lambda: True)
+                    return local
+                return local
+            return None
+        return tracer
 
     def service_for(self, dest, dev):
         d = dest.rstrip(b'\0')
@@ -272,6 +291,7 @@ class World(object):
             pc={t: self.sched.th[t].at for t in self.threads}, lid=dict(self.lids), nid=self.device._local_id,
             tlock=self.io._transport_lock.holder or 'free',
             store=sorted([a0, a1, [c.decode() for c, _ in q._queue]] for a1, m in st.items() for a0, q in m.items()),
+            live=sorted([a0, a1] for (a0, a1) in getattr(self.io._packet_store, '_live', ())),
             d2h=[[f['pk']['cmd'], wire.unlimbs(f['pk']['a0']), wire.unlimbs(f['pk']['a1'])] for f in self.dev.wire],
             h2d=[[h['cmd'], h['a0'], h['a1']] for h in self.core.h2d_q],
             dev=devs)
@@ -284,6 +304,7 @@ def reduce_model(st):
     return dict(
         pc={t: PCCLASS[v['pc']] for t, v in st['th'].items()}, lid={t: v['lid'] for t, v in st['th'].items()}, nid=st['nid'], tlock=st['tlock'],
         store=sorted([x['a0'], x['a1'], [y['cmd'] for y in x['q']]] for x in st['store']),
+        live=sorted([x['a0'], x['a1']] for x in st.get('live', [])),
         d2h=[[x['cmd'], x['a0'], x['a1']] for x in st['d2h']], h2d=[[x['cmd'], x['a0'], x['a1']] for x in st['h2d']], dev=devs)
 
 
@@ -339,6 +360,9 @@ def _wrap_op(world, t, fn, api):
     if world.mode == 'sync':
         def run():
             rec.ev('call', api=api, decode=False)
+            if world.line_yield:
+                import sys as _sys
+                _sys.settrace(world.line_tracer())
             try:
                 v = fn()
             except sched.Abort:
@@ -379,11 +403,12 @@ def api_name(p):
     return 'stat'
 
 
-async def run_schedule(mode, prog, replies, pick, ridbase=10, max_steps=2000, lid0=None, write_yield=False):
+async def run_schedule(mode, prog, replies, pick, ridbase=10, max_steps=4000, lid0=None, write_yield=False, line_yield=False):
     """One execution of the real code under a schedule chosen by pick(enabled) -> (trace, info)."""
     w = World(mode, prog, replies, ridbase, lid0=lid0)
     w.gate.write_yield = write_yield
     w.io_yield = write_yield
+    w.line_yield = line_yield and mode == 'sync'
     w.op_plain = w.op
     w.op = lambda t: _wrap_op(w, t, w.op_plain(t), api_name(prog[t]))
     await w.start()
@@ -445,7 +470,7 @@ async def run_schedule(mode, prog, replies, pick, ridbase=10, max_steps=2000, li
     return tr, dict(stuck=stuck, schedule=sched_log, results={t: w.results.get(t) for t in w.threads}, lids=dict(w.lids))
 
 
-def explore(mode, prog, replies, n, rng, ridbase=10, lid0=None, write_yield=False):
+def explore(mode, prog, replies, n, rng, ridbase=10, lid0=None, write_yield=False, line_yield=False):
     """n random schedules (uniform and sticky mixes)."""
     async def main():
         out = []
@@ -459,7 +484,7 @@ def explore(mode, prog, replies, n, rng, ridbase=10, lid0=None, write_yield=Fals
                 c = en[rng.randrange(len(en))]
                 last[0] = c
                 return c
-            out.append(await run_schedule(mode, prog, replies, pick, ridbase, lid0=lid0, write_yield=write_yield))
+            out.append(await run_schedule(mode, prog, replies, pick, ridbase, lid0=lid0, write_yield=write_yield, line_yield=line_yield))
         return out
     loop = asyncio.new_event_loop()
     try:
@@ -468,7 +493,7 @@ def explore(mode, prog, replies, n, rng, ridbase=10, lid0=None, write_yield=Fals
         loop.close()
 
 
-def replay_schedule(mode, prog, replies, schedule, ridbase=10):
+def replay_schedule(mode, prog, replies, schedule, ridbase=10, write_yield=False, line_yield=False):
     it = iter(schedule)
 
     def pick(en):
@@ -478,6 +503,6 @@ def replay_schedule(mode, prog, replies, schedule, ridbase=10):
         return c
     loop = asyncio.new_event_loop()
     try:
-        return loop.run_until_complete(run_schedule(mode, prog, replies, pick, ridbase))
+        return loop.run_until_complete(run_schedule(mode, prog, replies, pick, ridbase, write_yield=write_yield, line_yield=line_yield))
     finally:
         loop.close()
